@@ -6,7 +6,14 @@ from .family import ModelCfg, run_family
 from .scopes import consts, family
 
 OPS = '{"open", "close", "yield", "wait", "cancel", "shield", "raise"}'
+OPSD = '{"open", "yield", "cancel", "close"}'
+OPSG = '{"open", "close", "yield", "cancel", "raise", "raisegrp"}'
 FAMILY = family("C04", [
+    # deep trees on one task: cancelled > shielded > plain > cancelled (shield not adjacent)
+    ModelCfg("c04-n1o6e1-deep", consts(1, 6, 1, OPSD, depth=4, env='{"cancel"}'), emit=True, check=False,
+             max_scenarios=6000),
+    ModelCfg("c04-n1o4e1-grp", consts(1, 4, 1, OPSG, pres="{0, 1}", env='{"cancel"}'), emit=True,
+             check=False, max_scenarios=3000),
     ModelCfg("c04-n1o4e2", consts(1, 4, 2, OPS, cleanups="{0, 1}", pres="{0, 1}"), emit=True, check=False,
              max_scenarios=5000),
     ModelCfg("c04-n2o3e1", consts(2, 3, 1, OPS, cleanups="{0, 1}", pres="{0, 1}"), tiers=("quick",),
